@@ -15,6 +15,10 @@ CLAIMS = {
   text="Theorems about the chain model for EVERY history of add/remove/set-priority/clear: the list is always sorted by priority; a stamped specification (fresh stamp per add/re-prioritisation) refines to the implementation's list and stays strictly ordered by (priority desc, stamp asc); lookup returns the holder that is best in that order (earliest added wins ties); absent names are not found; parallel construction equals sequential construction. Patch application: for an arbitrary digest function a successful apply implies base and result carry the declared digests (never unverified bytes), COPY yields exactly the payload, BSD0 yields exactly the declared size. Tied to the code by all histories of length <=2 (<=3 thorough) plus seeded longer ones on four real archives through the real PatchChain (sequential and parallel), and by the real apply_patch on well-formed and altered COPY/BSD0 patch files against the model (MD5 executable in Coq, checked against hashlib).",
   note="partial: archives inside the chain are abstracted to 'listed name -> content' (tie: C01) and names are ASCII; entries with FLAG_PATCH_FILE inside archives cannot be produced by the builder, so read_patched_file's selection of base/patches is not exercised (the applier is). MD5 in theorems is an arbitrary function; executable MD5 is validated against hashlib.",
   tech="Coq proof (invariants by induction over operation lists, refinement to a stamped spec) + bounded-exhaustive differential histories"),
+ "C09": dict(
+  text="Theorems over the model of extract_with_config for an arbitrary sequential read function: for every request list, thread count, batch size >= 1 and error-skipping mode both code paths (<=1000 and >1000 names) return exactly one slot per requested name in request order, each equal to the sequential read; with skipping a failing name affects only its own slot, without it the call fails as a whole; concat of mapped chunks equals the mapped list for every batch size; results do not depend on the execution order of index-tagged tasks. Tied to the code by running the real parallel interfaces over request lists of length 0..5001 (duplicates, missing names at chosen positions), threads 1..32, several batch sizes, with and without 16 busy threads, repeated, against sequential reads and against the extracted model's slot structure.",
+  note="partial: the theorem covers task-granular scheduling under the isolation assumption (each task reads through its own handle); isolation itself, rayon's ordered collect and the memory model are runtime facts validated by repetition under contention, not proved. batch_size 0 (chunks(0) panics) and threads 0 with >5000 names are outside the quantifier.",
+  tech="Coq proof (list algebra: chunks/concat/map, schedule independence) + repeated differential runs under contention"),
  "C11": dict(
   text="Coq model of the target computation (Unix std::path components/join/file_name as used by the CLI) with the theorem that for EVERY entry name, with or without path preservation, the target lies strictly beneath the output directory and consists only of plain component names; refutation witnesses for the code as found. Tied to the code by running the real binary built from the working tree on grammar-generated archives (plain and patch-chain branch, explicit and whole-archive) inside a sandbox whose whole tree (and an absolute escape directory) is snapshotted before and after; the set of created files must equal the model's predicted targets.",
   note="Lexical containment only: pre-existing symlinks in the output tree are outside the property's quantifier and the model. std::path semantics are transcribed by hand for Unix; Windows prefixes are not modelled. The model is of the repaired extraction_target function (fix: commit in /repo).",
